@@ -93,6 +93,21 @@ def policy_drops(pol) -> int:
     return 0
 
 
+UNMODELLED = ("codel", "red", "alifo")     # no sequence machine in Policies.tla: contract clauses only
+
+
+def held_ids(pol):
+    """Ids still held by a policy that may discard accepted items on its own (CoDelQueue); None if the
+    policy object cannot be inspected.  Used only to name the discarded items in the log."""
+    inner = pol.inner if isinstance(pol, BalkingQueue) else pol
+    if type(inner).__name__ != "CoDelQueue":
+        return None
+    q = getattr(inner, "_queue", None)
+    if q is None:
+        return None
+    return [item_of(getattr(e, "item", e)) for e in q]
+
+
 def rep_cap(pol) -> int:
     c = pol.capacity
     return INF if c == float("inf") or c >= INF else int(c)
@@ -104,6 +119,7 @@ class RecPolicy(QueuePolicy):
     def __init__(self, inner, rec):
         self._inner = inner
         self._rec = rec
+        self._held = []
 
     @property
     def capacity(self):
@@ -111,12 +127,21 @@ class RecPolicy(QueuePolicy):
 
     def push(self, item):
         acc = self._inner.push(item)
+        if acc:
+            self._held.append(item_of(item))
         self._rec.on_push(item, acc)
         return acc
 
     def pop(self):
         it = self._inner.pop()
         self._rec.on_pop(it)
+        if it is not None and item_of(it) in self._held:
+            self._held.remove(item_of(it))
+        left = held_ids(self._inner)
+        if left is not None:
+            for i in [i for i in self._held if i not in left]:      # discarded by the policy itself
+                self._held.remove(i)
+                self._rec.rec("drp", i, defer=True)
         return it
 
     def peek(self):
@@ -414,11 +439,11 @@ def run_scenario(sc, tick_ns=10 ** 9, end_tick=None, seed=0, weights=None):
                     *rec.sample()])
     q = res._queue
     completed = res.stats.requests_completed if sc["wk"] == "server" else res.processed
-    modelled = weights is None and not (prm["thr"] < INF and prm["bm"] == 2)
+    modelled = weights is None and not (prm["thr"] < INF and prm["bm"] == 2) and prm["kind"] not in UNMODELLED
     wk = sc["wk"] if not sc["dyn"] else "server_dyn"
     tr = _trace(prm, rep_cap(pol), [max(1, w) for w in Wt], [a["p"] for a in sc["arr"]],
                 [a["f"] for a in sc["arr"]], sc["lim"], rec.log,
-                idle=0 if weights is not None else 1, order=1, cnt=1, sink=1,
+                idle=0 if weights is not None else 1, order=0 if prm["kind"] in UNMODELLED else 1, cnt=1, sink=1,
                 fin=[q.stats_accepted, completed] if end_tick is None else [-1, -1], wk=wk, sc=sc, wt=weights)
     if not modelled:
         tr["hassc"] = 0
@@ -432,7 +457,7 @@ def _trace(prm, rcap, W, P, F, lim0, log, *, idle, order, cnt, sink, fin, wk, al
     return {"prm": prm, "rcap": rcap, "W": W, "P": P, "F": F, "wt": wt or [1] * len(P),
             "disc": 1 if wk in ("shifted", "reneging") else 0, "lim0": lim0, "idle": idle, "order": order,
             "cnt": cnt, "sink": sink, "allof": allof, "dbg": 0, "cut": 0,
-            "nomodel": 1 if prm["kind"] in ("codel", "red", "alifo") else 0, "hassc": 1 if sc else 0, "sc": sc or EMPTY_SC,
+            "nomodel": 1 if prm["kind"] in UNMODELLED else 0, "hassc": 1 if sc else 0, "sc": sc or EMPTY_SC,
             "fin": fin, "log": log, "wk": wk}
 
 
@@ -455,6 +480,7 @@ def run_policy_ops(prm, W, ops, seed=0):
     pol = make_policy(prm, W, clock=lambda: Instant(now[0] * tick_ns), tick_ns=tick_ns)
     log, results, P, F = [], [], [], []
     enq = 0
+    held = []
     st = random.getstate()
     random.seed(seed)
     try:
@@ -467,6 +493,8 @@ def run_policy_ops(prm, W, ops, seed=0):
                            context={"metadata": {"i": i, "p": op[1], "f": op[2]}})
                 acc = pol.push(ev)
                 enq += 1 if acc else 0
+                if acc:
+                    held.append(i)
                 x = policy_drops(pol)
                 log.append(["psh" if acc else "rej", i, now[0], 0, 0, len(pol), x, 0])
                 results.append(("psh", op[1], op[2], 1 if acc else 0, len(pol)))
@@ -476,6 +504,13 @@ def run_policy_ops(prm, W, ops, seed=0):
                 i = 0 if it is None else item_of(it)
                 log.append(["pop0" if it is None else "pop", i, now[0], 0, 0, len(pol), x, 0])
                 results.append(("pop", i, len(pol), x))
+                if i in held:
+                    held.remove(i)
+                left = held_ids(pol)
+                if left is not None:
+                    for j in [j for j in held if j not in left]:
+                        held.remove(j)
+                        log.append(["drp", j, now[0], 0, 0, len(pol), x, 0])
             else:
                 now[0] += 1
                 results.append(("tick",))
@@ -487,7 +522,7 @@ def run_policy_ops(prm, W, ops, seed=0):
     pub = inner.stats.enqueued if hasattr(inner, "stats") and hasattr(inner.stats, "enqueued") else enq
     # the reference is given the weights the policy documents (a weight below 1 counts as 1)
     tr = _trace(prm, rep_cap(pol), [max(1, w) for w in W], P, F, 0, log, idle=0,
-                order=0 if prm["kind"] in ("codel", "red", "alifo") else 1, cnt=0, sink=0, fin=[pub, 0], wk="policy")
+                order=0 if prm["kind"] in UNMODELLED else 1, cnt=0, sink=0, fin=[pub, 0], wk="policy")
     return tr, results
 
 
